@@ -7,7 +7,9 @@ ID = 'C13'
 COQ_TARGETS = ['Props/Properties_C13.vo']
 PROPS_FILES = ['Props/Properties_C13.v']
 THEOREMS = ['C13_exists', 'C13_exact', 'C13_confined', 'C13_bounce_line', 'C13_checker_sound', 'C13_model_passes_checker',
-            'C13_reply', 'C13_reply_exact', 'C13_model_passes_rcpt_checker']
+            'C13_reply', 'C13_reply_exact', 'C13_model_passes_rcpt_checker',
+            'C13_cdb_safe', 'C13_cdb_terminates', 'C13_vget_safe', 'C13_cdb_lookup', 'C13_cdb_make_wf', 'C13_vget_found',
+            'C13_exists_file', 'C13_confined_file']
 SHRINK_FROM = 3      # keep users/cdb and the domain of a failing case, shrink layout / bounce / local part / tail
 ENGINES = [dict(name='vpop', c_sources=['vpop_h.c'], extract='Extract/Extract_vpop.v', driver='vpop_driver.ml',
                 glue=('glue.ml', 'glue_z.ml'), accepts=lambda c: c.startswith('c1 ') or c.startswith('c2 ')),
